@@ -190,7 +190,11 @@ CLAIMED = {
                      'percent of its pixels are masked or it is fully masked; the good-pixel '
                      'threshold formula; the mask used for the statistics is pixel by pixel the '
                      'union of input, coverage and invalid-value masks; the full-size map holds '
-                     'fill_value exactly on coverage-mask pixels; Background2D getter purity. Mesh values, equivariance, '
+                     'fill_value exactly on coverage-mask pixels; the coverage mask is left as given; the '
+                     'selective filter replaces only meshes above the threshold by their window median; '
+                     'the mesh goes through no filter for filter_size (1, 1), the whole-mesh median filter '
+                     'only without a threshold or with one below every mesh value, the selective filter '
+                     'for every other threshold (0 included); Background2D getter purity. Mesh values, equivariance, '
                      'fill and range relations are checked bounded against a per-box oracle.',
                 note='A-real; numerical relations bounded only'),
     'C12': dict(engine='pyvc', technique=f'{_T} (_make_mask, fit window / npixfit, flags, '
